@@ -634,14 +634,16 @@ Qed.
 Definition table_stmts (t : tables) : list stmt :=
   SLits "literals" (map (fun l => snd (fst l)) (t_literals t)) :: match_stmts t ++ completion_stmts t.
 
+Lemma all_admissible_bash l : Forall (admissible Bash) l.
+Proof. induction l; constructor; [apply admissible_bash | assumption]. Qed.
+
 Theorem bash_tables_roundtrip t :
-  Forall (admissible Bash) (map (fun l => snd (fst l)) (t_literals t)) ->
   forall k rest,
     scan (List.length (table_stmts t) + k) Bash
          (append (write_literals t) (append (write_match_transitions t) (append (write_completion_tables t) rest)))
     = table_stmts t ++ scan k Bash rest.
 Proof.
-  intros Hadm k rest.
+  intros k rest. pose proof (all_admissible_bash (map (fun l => snd (fst l)) (t_literals t))) as Hadm.
   rewrite write_literals_line, write_match_transitions_lines, write_completion_tables_lines.
   rewrite <- (append_assoc (sconcat (match_lines t))). rewrite <- sconcat_app. rewrite <- append_assoc.
   change (literals_line (map (fun l => snd (fst l)) (t_literals t)) ++ sconcat (match_lines t ++ completion_lines t))%string
